@@ -1407,6 +1407,13 @@ class Evaluator:
                 # k+1 explicit next() calls
                 self._mref_set(env, args[0], ("advanced", base, pos + 1))
                 return ("call", "core::iter::traits::iterator::Iterator::nth", (base, C(pos, "usize")))
+        if declared == "core::iter::traits::double_ended::DoubleEndedIterator::next_back" and len(args) == 1 and args[0][0] == "mref":
+            cur = self._mref_get(env, args[0])
+            if cur[0] in ("call", "iter", "iop", "imap") and cur[0] != "advanced" and self.prog.fn(name) is None:
+                # the first next_back() of an iterator nothing was taken from yet is its last element (DoubleEndedIterator's
+                # contract: both ends walk the same sequence)
+                self._mref_set(env, args[0], ("mutated", name, 0, (cur,)))
+                return ("call", "core::iter::traits::iterator::Iterator::last", (cur,))
         if name in ("core::mem::take", "core::mem::replace") and args and args[0][0] == "mref":
             cur = self._mref_get(env, args[0])
             if name.endswith("replace"):
